@@ -304,15 +304,70 @@ func isOrdered(expected ipld.Node, actual ipld.Node, satisfies func(order int) b
 	return false
 }
 
-// deepEqual is datamodel.DeepEqual, except that data it cannot compare
-// (integers that don't fit in an int64 make it panic) is never equal.
+// deepEqual is datamodel.DeepEqual, except that:
+//   - data it cannot compare (integers that don't fit in an int64 make it
+//     panic) is never equal;
+//   - two maps are equal when they hold the same entries, whatever the order
+//     of their keys. That order is not something the author of a policy or of
+//     an invocation controls: arguments are sorted by Args.ToIPLD, literals by
+//     literal.Map, and DAG-CBOR re-orders the keys of both on the wire (shorter
+//     keys first), so the same policy would match the same arguments before a
+//     delegation is sealed and not after.
 func deepEqual(x, y ipld.Node) (res bool) {
 	defer func() {
 		if r := recover(); r != nil {
 			res = false
 		}
 	}()
-	return datamodel.DeepEqual(x, y)
+	return equalNodes(x, y)
+}
+
+func equalNodes(x, y ipld.Node) bool {
+	if x == nil || y == nil || x.Kind() != y.Kind() {
+		return datamodel.DeepEqual(x, y)
+	}
+
+	switch x.Kind() {
+	case datamodel.Kind_Map:
+		if x.Length() != y.Length() {
+			return false
+		}
+		it := x.MapIterator()
+		for !it.Done() {
+			k, xv, err := it.Next()
+			if err != nil {
+				return false
+			}
+			key, err := k.AsString()
+			if err != nil {
+				return false
+			}
+			yv, err := y.LookupByString(key)
+			if err != nil || !equalNodes(xv, yv) {
+				return false
+			}
+		}
+		return true
+
+	case datamodel.Kind_List:
+		if x.Length() != y.Length() {
+			return false
+		}
+		for i := int64(0); i < x.Length(); i++ {
+			xv, err := x.LookupByIndex(i)
+			if err != nil {
+				return false
+			}
+			yv, err := y.LookupByIndex(i)
+			if err != nil || !equalNodes(xv, yv) {
+				return false
+			}
+		}
+		return true
+
+	default:
+		return datamodel.DeepEqual(x, y)
+	}
 }
 
 func gt(order int) bool  { return order == 1 }
